@@ -38,6 +38,10 @@ class C03(RecorderProp):
                                 'handler': rng.choice(['', '', 'wrap']), 'failOnMissing': True, 'default': None,
                                 'body': ([{'op': 'raise', 't': rng.choice(RAISED)}] if rng.random() < 0.2 else [])
                                 + [{'op': 'ret', 'e': const(rng.choice([None, {'s': 'ack'}, {'i': '1'}]))}]}
+            sp = sites['o%d' % i]
+            if sp['handler'] == 'wrap' and sp['nargs'] > 0 and rng.random() < 0.5:
+                # the output function changes the argument it was handed in place - after the (serialising) handler saw it
+                sp['body'].insert(0, {'op': 'stamp', 'x': 'a%d' % rng.randrange(sp['nargs'])})
         ncalls = rng.choice([1, 2, 3, 4, 6, 8]) if rng.random() < 0.8 else rng.randint(10, 14)
         script = []
         for j in range(ncalls):
